@@ -18,6 +18,7 @@ P2 == <<"!", "l", "o", "c", "-">>
 P3 == <<"%", "7", "4", "%", "6", "1", "g", ":", "e", "%", "2", "E", "o", "r", "g", ",", "2", "0", "0", "0", ":">>
 Handles == {H1, H2, HA, HB}
 DirLists == {<<>>} \cup {<< <<h, p>> >> : h \in Handles, p \in {P1, P2, P3}} \cup {<< <<h, P1>>, <<g, P2>> >> : h \in Handles, g \in Handles}
+            \cup {<< <<h, P1>>, <<h, P1>> >> : h \in Handles}       \* the same declaration twice is a duplicate too
 DirListsSmall == {<<>>} \cup {<< <<h, P2>> >> : h \in Handles}
 Spellings == { [form |-> "none"], [form |-> "nonspecific"], [form |-> "verbatim", v |-> <<"t", "a", "g", ":", "v", ".", "o", "r", "g", ",", "2", "0", "0", "0", ":", "t">>],
                [form |-> "secondary", s |-> <<"s", "t", "r">>], [form |-> "named", h |-> <<"a">>, s |-> <<"t">>],
@@ -36,13 +37,15 @@ Kinds == {"scalar", "seq", "map"}
 VARIABLES docs, keep, done
 vars == <<docs, keep, done>>
 \* bare: the document has no '---' line (only after a document that ended with '...', and without directives)
-DocChoices(first) == [dirs : (IF first \/ Full THEN DirLists ELSE DirListsSmall), yaml : BOOLEAN, res : BOOLEAN, sp : (IF first THEN Spellings ELSE SpellingsLater), kind : (IF first \/ Full THEN Kinds ELSE {"scalar"}),
+DocChoices(first) == [dirs : (IF first \/ Full THEN DirLists ELSE DirListsSmall), yaml : BOOLEAN, res : (IF first THEN 0..2 ELSE 0..1), sp : (IF first THEN Spellings ELSE SpellingsLater), kind : (IF first \/ Full THEN Kinds ELSE {"scalar"}),
                       bare : (IF first THEN {FALSE} ELSE BOOLEAN)]
 Init == docs = <<>> /\ keep \in BOOLEAN /\ done = FALSE
 AddDoc == /\ ~done /\ Len(docs) < Docs
           /\ \E d \in DocChoices(docs = <<>>) :
-               /\ d.bare => (d.dirs = <<>> /\ ~d.yaml /\ ~d.res)
-               /\ d.res => Len(d.dirs) <= 1          \* a reserved directive (%FOO bar baz): ignored, and never a %TAG line
+               /\ d.bare => (d.dirs = <<>> /\ ~d.yaml /\ d.res = 0)
+               /\ (docs # <<>> /\ d.res > 0) => ~d.yaml            \* (later documents: a reserved directive alone or with %TAG lines)
+               /\ d.res = 2 => d.kind = "scalar"
+               /\ d.res > 0 => Len(d.dirs) <= 1          \* a reserved directive (%FOO bar baz): ignored, and never a %TAG line
                /\ docs' = Append(docs, d)
           /\ UNCHANGED <<keep, done>>
 Finish == /\ ~done /\ docs # <<>> /\ done' = TRUE /\ UNCHANGED <<docs, keep>>
@@ -62,7 +65,9 @@ NodeText(d) ==
   IF d.kind = "scalar" THEN <<"-", "-", "-">> \o pre \o <<" ", "v">> \o <<"\n">>
   ELSE IF d.kind = "seq" THEN <<"-", "-", "-">> \o pre \o <<" ", "[", "a", "]">> \o <<"\n">>
   ELSE <<"-", "-", "-">> \o pre \o <<"\n">> \o <<"k", ":", " ", "v">> \o <<"\n">>
-DocText(d) == (IF d.res THEN <<"%", "F", "O", "O", " ", "b", "a", "r", " ", "b", "a", "z", "\n">> ELSE <<>>) \o (IF d.yaml THEN <<"%", "Y", "A", "M", "L", " ", "1", ".", "2">> \o <<"\n">> ELSE <<>>) \o DirText(d.dirs, 1) \o NodeText(d) \o <<".", ".", ".">> \o <<"\n">>
+\* reserved directives: 1 = %FOO bar baz; 2 = %tag !a! !loc-  (directive names are case-sensitive: this is not a %TAG line and declares nothing)
+DocText(d) == (IF d.res = 1 THEN <<"%", "F", "O", "O", " ", "b", "a", "r", " ", "b", "a", "z", "\n">>
+               ELSE IF d.res = 2 THEN <<"%", "t", "a", "g", " ", "!", "a", "!", " ", "!", "l", "o", "c", "-", "\n">> ELSE <<>>) \o (IF d.yaml THEN <<"%", "Y", "A", "M", "L", " ", "1", ".", "2">> \o <<"\n">> ELSE <<>>) \o DirText(d.dirs, 1) \o NodeText(d) \o <<".", ".", ".">> \o <<"\n">>
 RECURSIVE StreamText(_, _)
 StreamText(ds, i) == IF i > Len(ds) THEN <<>> ELSE DocText(ds[i]) \o StreamText(ds, i + 1)
 
